@@ -1413,6 +1413,25 @@ Proof.
     + intros [r [Hin [Hl Hc]]]. apply in_nodup_strs. rewrite <- Hl. apply in_map. apply filter_In. auto.
 Qed.
 
+Theorem env_store_complete_all (s : st) (vals : list envval) (cur : str -> option N) :
+  (forall r', In r' (rescan_env_store true vals cur s) -> attached (KStep, ev_step r') s = true ->
+              ev_value r' = cur (ev_name r')) /\
+  map ev_step (rescan_env_store true vals cur s) = map ev_step vals /\
+  map ev_name (rescan_env_store true vals cur s) = map ev_name vals /\
+  (forall l, In l (rescan_env_steps vals cur s) <->
+             exists r, In r vals /\ ev_step r = l /\ env_row_changed cur s r = true).
+Proof. split; [intros r'; apply env_store_complete | apply env_store_shape]. Qed.
+
+Theorem env_second_start_quiet (s s' : st) (vals : list envval) (cur : str -> option N) :
+  (forall l, attached (KStep, l) s' = true -> attached (KStep, l) s = true) ->
+  rescan_env_steps (rescan_env_store true vals cur s) cur s' = [].
+Proof.
+  intros Hatt. apply env_unchanged_steps. unfold env_unchanged_b. apply forallb_forall.
+  intros r' Hin. apply negb_true_iff. unfold env_row_changed.
+  destruct (attached (KStep, ev_step r') s') eqn:Ha; [|reflexivity]. cbn [andb]. apply negb_false_iff.
+  rewrite (env_store_complete s vals cur r' Hin (Hatt _ Ha)). apply on_eqb_refl.
+Qed.
+
 Lemma env_rule_tie : gen_env_rescan_stores_seen_value = true /\
                      existsb (N.eqb (fstate_code FUnconfirmed)) gen_confirmation_kept_states
                      = gen_drops_stale_confirmation.
